@@ -15,7 +15,7 @@ import (
 func init() {
 	register(stream{
 		name: "glob",
-		rule: "every (pattern, string) pair over the alphabet {a,b,*,\\} with |pattern| ≤ N and |string| ≤ N (N=4 quick, 5 thorough), evaluated through policy.Like + Policy.Match on a string node, plus random longer pairs and multi-byte UTF-8. Added later: every statement is also matched as decoded from its own IPLD and DAG-JSON form, and again on the first object after it matched other strings. Every pair over the bytes {0xff,0xfe,0xe2,0x82,0xac,*} up to length 3 (bytes that are not UTF-8, one character taken apart) plus the replacement character: the match is on bytes (no DAG-JSON leg for patterns that are not UTF-8). A pattern the constructor refuses is also offered to FromIPLD and FromDagJson, which must refuse it. One text cut into (pattern, string) at two places, the two pairs matched one right after the other, in both orders. Non-trivial = the pattern contains a wildcard or an escape. Distinct = distinct protocol lines.",
+		rule: "every (pattern, string) pair over the alphabet {a,b,*,\\} with |pattern| ≤ N and |string| ≤ N (N=4 quick, 5 thorough), evaluated through policy.Like + Policy.Match on a string node, plus random longer pairs and multi-byte UTF-8. Added later: every statement is also matched as decoded from its own IPLD and DAG-JSON form, and again on the first object after it matched other strings. Every pair over the bytes {0xff,0xfe,0xe2,0x82,0xac,*} up to length 3 (bytes that are not UTF-8, one character taken apart) plus the replacement character: the match is on bytes (no DAG-JSON leg for patterns that are not UTF-8). Bytes whose low seven bits are those of '*' or '\\\\' (0xaa, 0xdc) in patterns and strings; every statement is matched again after another like statement with escapes was built. A pattern the constructor refuses is also offered to FromIPLD and FromDagJson, which must refuse it. One text cut into (pattern, string) at two places, the two pairs matched one right after the other, in both orders. Non-trivial = the pattern contains a wildcard or an escape. Distinct = distinct protocol lines.",
 		run:  runGlobStream,
 		eval: evalGlob,
 		cmp: func(line, g, m string) string {
@@ -59,6 +59,14 @@ func goLike(p, s string) string {
 	}
 	n := basicnode.NewString(s)
 	ok, _ := pol.Match(n)
+	// another statement with an escaped pattern of its own is built (and used) while this one is alive: a compiled pattern
+	// belongs to its statement
+	if other, err := policy.Construct(policy.Like(".", "q\\*r\\\\s*")); err == nil {
+		other.Match(basicnode.NewString("q*r\\s!"))
+		if okAgain, _ := pol.Match(n); okAgain != ok {
+			return "history: the statement answers " + bstr(ok) + " and, after another like statement was built, " + bstr(okAgain)
+		}
+	}
 	// the same statement decoded from IPLD and from DAG-JSON must decide the same way
 	if nd, err := pol.ToIPLD(); err == nil {
 		if p2, err := policy.FromIPLD(nd); err == nil {
@@ -119,6 +127,21 @@ func runGlobStream(c *ctx) error {
 			for _, s := range subjects {
 				c.emitG("glob.like "+hxs(p)+" "+hxs(s), "glob.Match", func(string) bool { return strings.ContainsAny(p, "*\\") },
 					func(g string) []string { return []string{"like-bytes:" + g} })
+			}
+		}
+	}
+	// bytes that equal '*' (0x2a) or '\\' (0x5c) in their low seven bits (0xaa, 0xdc — halves of ordinary two-byte characters such as
+	// ª ê Ü ܐ) are ordinary bytes; and the string may hold '*' and '\\' themselves
+	{
+		var pats, subjects []string
+		allStrings("\xaa\xdc\xc3a*", 3, func(s string) { pats = append(pats, s) })
+		allStrings("\xaa\xdc\xc3a*\\", 2, func(s string) { subjects = append(subjects, s) })
+		pats = append(pats, "f\xc3\xaate", "\xdc\x90", "\\\xaa", "\\\xdc*", "a\xdc", "\xc3\xaa*\xdc\x90")
+		subjects = append(subjects, "f\xc3\xaate", "f\xc3\xa3te", "\xdc\x90", "\xdc", "\xaa", "a\xdc", "a\\", "a*", "\xc3\xaax\xdc\x90")
+		for _, p := range pats {
+			for _, s := range subjects {
+				c.emitG("glob.like "+hxs(p)+" "+hxs(s), "glob.Match", func(string) bool { return true },
+					func(g string) []string { return []string{"like-highbit:" + g} })
 			}
 		}
 	}
